@@ -1098,7 +1098,8 @@ func (r *reader) pushChar(src []byte) {
 	default:
 		var ok bool
 		if c, ok = runeMap[string(bytes.ToLower(token))]; ok {
-			break
+			r.push(c)
+			return
 		}
 		if token[0] == 'u' || token[0] == 'U' {
 			if 7 < cnt {
